@@ -219,6 +219,20 @@ def merge_{tag}({params}) -> bool:
 def replay_merge_{tag}({", ".join(ss)}):
     return replay_kids({kids})
 ''')
+    for ki in range(4):
+        for in_cell in (False, True):
+            out.append(f'''
+def magic_{ki}_{int(in_cell)}(a1: int, a2: int, a3: int, outer_italic: bool) -> bool:
+    """
+    pre: 0 <= a1 < len(ARG_CHOICES) and 0 <= a2 < len(ARG_CHOICES) and 0 <= a3 < {1 if quick else 4}
+    post: _
+    """
+    return magic_step({ki}, a1, a2, a3, {in_cell}, outer_italic)
+
+
+def replay_magic_{ki}_{int(in_cell)}(a1, a2, a3, outer_italic):
+    return replay_magic_step({ki}, a1, a2, a3, {in_cell}, outer_italic)
+''')
     for nk in (2, 3):
         ps = [f"s{i}" for i in range(nk)]
         pre_u = " and ".join(f"len({x}) == 1 and {x}[0] in ACH" for x in ps)
@@ -266,7 +280,8 @@ def run(rep: C.Report) -> None:
     xh.check_harness(
         rep,
         H,
-        {"^url_": dict(name="Ob6 the URL part of an external link is merged and finalized when it becomes an argument", functions=["parser.py:text_fn (URL whitespace branch)"], bounds="2..3 string children of one symbolic char over {a, space, placeholder}"),
+        {"^magic_": dict(name="Ob7 re-parsing the arguments of a saved template / parameter reference / link / external link leaves nothing open that it opened and never pops ROOT (no exception)", functions=["parser.py:magic_fn", "parser.py:_parser_pop", "parser.py:process_text"], bounds="4 construct kinds x {top level, table cell} x optional open italic x 2 (thorough 3) arguments each drawn from 10 argument texts with open/close formatting, rule and list lines (symbolic indices: solver-driven case split)"),
+         "^url_": dict(name="Ob6 the URL part of an external link is merged and finalized when it becomes an argument", functions=["parser.py:text_fn (URL whitespace branch)"], bounds="2..3 string children of one symbolic char over {a, space, placeholder}"),
          "^attrs_": dict(name="Ob5 no placeholder character survives in attribute values when a node is popped", functions=["parser.py:_parser_pop"], bounds=f"attribute value of 0..{2 if quick else 3} symbolic chars over {{a, space, placeholder}}; HTML element and table row"),
          "^merge_": dict(name="Ob4 merge kernel: no empty string, no adjacent strings, no placeholder character, nodes kept", functions=["parser.py:_parser_merge_str_children", "core.py:Wtp._finalize_expand"], bounds=f"children lists of {3 if quick else 4} entries (every node/string skeleton), strings <= {1 if quick else 2} symbolic chars over {{a, newline, nowiki-, bracket-placeholders}}")},
         timeout=60 if quick else 300,
